@@ -322,6 +322,14 @@ func (w *World) RunPre() error {
 			return fmt.Errorf("pre op %d is not an extend", i)
 		}
 		if !w.register(op.Ext, nil) {
+			known := op.Ext.ParentExt < 0 // a built-in name must always be found
+			for _, e := range w.PreExts {
+				known = known || e.ID == op.Ext.ParentExt
+			}
+			if !known {
+				// the plan never registered the parent (an edited replay file): not a verdict
+				return fmt.Errorf("malformed plan: pre op %d hangs on extension #%d, which the plan does not register before it", i, op.Ext.ParentExt)
+			}
 			w.PreSkipped = append(w.PreSkipped, op.Ext)
 			continue
 		}
